@@ -132,7 +132,7 @@ MANIFEST = {
             "order/reachability/return time (scaled and unscaled), ATSP triangle inequality, SVRP coverage, MTVRP preset "
             "flags and limits, FJSP/JSSP eligibility and padding, MCP set hygiene, initial tours of the improvement envs (random and greedy construction: one cycle through all nodes, "
             "pickups before deliveries) - and every instance completed under two "
-            "mask-confined chooser regimes. Exploration over seeds x parameterisations.",
+            "mask-confined chooser regimes. Exploration over seeds x parameterisations. Also: sampler parameterisations (non-default boxes, center / corner / constant, depot distributions, sampler objects), a systematic sweep over generator arguments (ATSP range, demand ranges, CVRPTW horizon, SVRP skills/costs, PCTSP penalty, OP length, MTVRP scale_demand / backhaul / capacity / combinations / subsample / limits), generator objects re-parameterised between batches.",
     "note": "Predicates are evaluated by the harness on the raw generator output; solvability reuses the C02 episode driver.",
     "technique": "runtime monitoring: predicate monitors on every generator output + bounded-progress episode monitor",
     "design_ref": "DESIGN.md section 4 / C18",
